@@ -237,6 +237,7 @@ class MixinAnalysis:
                 # a node without children is nobody's proper ancestor (C01 at entry): once `x is q` is excluded no scan is needed
                 leaf = same_tested and any(
                     (ev.kind == "GUARD" and ev.name == "opaque" and ev.a == ("list_of", x) and ev.outcome is False)
+                    or (ev.kind == "GUARD" and ev.name == "hasattr" and ev.a == x and ev.text == "children" and ev.outcome is False)
                     or (ev.kind == "LAZYINIT" and ev.recv == x) for ev in pre)
                 if leaf:
                     continue
@@ -671,7 +672,8 @@ class MixinAnalysis:
                     xs = ("tuple", ("arg", func.posparams[1]))
                     for hn in ("_pre_attach_children", "_post_attach_children"):
                         ev = evs.get(hn)
-                        if ev is not None and (not ev.args or ev.args[0] != xs):
+                        if ev is not None and (not ev.args or (ev.args[0] != xs and ev.args[0] != ("literal", ()))):
+                            # (the empty literal: the validated tuple of an argument that stands for "no children")
                             bad("H5", ev, "%s receives %s, not the validated tuple of new children" % (
                                 hn, label(ev.args[0]) if ev.args else "nothing"),
                                 "%s [argument %s]" % (ev.stmt_text(), label(ev.args[0]) if ev.args else "-"), name, trace)
